@@ -8,16 +8,20 @@ package rtpconn
 // quiescence every member's list must equal Group.GetClients.
 
 import (
+	"crypto/sha256"
+	"encoding/hex"
 	"fmt"
 	"net"
 	"os"
 	"path/filepath"
+	"runtime"
 	"sort"
 	"strings"
 	"sync"
 	"testing"
 	"time"
 
+	"golang.org/x/crypto/pbkdf2"
 	"pgregory.net/rapid"
 
 	"github.com/jech/galene/conn"
@@ -99,9 +103,24 @@ func (c *viewClient) Kick(id string, user *string, message string) error {
 	return nil
 }
 
+var c14SlowPw map[string]any
+var c14SlowOnce sync.Once
+
+// c14SlowPassword is a PBKDF2 record whose verification takes a few hundred milliseconds.
+func c14SlowPassword() map[string]any {
+	c14SlowOnce.Do(func() {
+		salt := []byte("c14-salt")
+		it := 600000
+		key := pbkdf2.Key([]byte("slowpw"), salt, it, 32, sha256.New)
+		c14SlowPw = map[string]any{"type": "pbkdf2", "hash": "sha-256", "key": hex.EncodeToString(key), "salt": hex.EncodeToString(salt), "iterations": it}
+	})
+	return c14SlowPw
+}
+
 var c14sRec = verifkit.New("TestVerif_C14_InterleavedMembership",
 	"2..4 fake members that rebuild their user list from the events they are handed; one membership operation (a join or a leave) is parked inside a drawn callback (the n-th "+
-		"Joined/PushClient of a drawn client, which may be the joiner, the leaver or a bystander), 1..3 further joins and leaves are started meanwhile (each waits for the group "+
+		"Joined/PushClient of a drawn client, which may be the joiner, the leaver or a bystander) or is slow by itself (a join whose password is a 600000-iteration PBKDF2 record, "+
+		"observed inside the key derivation through the goroutine dump), 1..3 further joins and leaves are started meanwhile (each waits for the group "+
 		"lock or completes, as the code makes it), then the parked operation is released; oracle at quiescence: every member's list == Group.GetClients (ids and usernames), no "+
 		"member was told of the same arrival twice or of a departure before the arrival; non-trivial = the parked callback was reached and at least one other operation completed "+
 		"or was started while it was parked; distinct by plan")
@@ -110,7 +129,8 @@ func TestVerif_C14_InterleavedMembership(t *testing.T) {
 	defer c14sRec.Flush()
 	simSetup()
 	rapid.Check(t, func(t *rapid.T) {
-		gname := c13Group(map[string]any{"wildcard-user": map[string]any{"password": map[string]any{"type": "wildcard"}, "permissions": "present"}})
+		gname := c13Group(map[string]any{"wildcard-user": map[string]any{"password": map[string]any{"type": "wildcard"}, "permissions": "present"},
+			"users": map[string]any{"slow": map[string]any{"password": c14SlowPassword(), "permissions": "present"}}})
 		defer os.Remove(filepath.Join(group.Directory, gname+".json"))
 		var all []*viewClient
 		mk := func(id string) *viewClient {
@@ -119,8 +139,11 @@ func TestVerif_C14_InterleavedMembership(t *testing.T) {
 			return c
 		}
 		join := func(c *viewClient) {
-			u := "user-" + c.id
-			g, err := group.AddClient(gname, c, group.ClientCredentials{Username: &u, Password: "p"})
+			u, pw := "user-"+c.id, "p"
+			if c.id == "Jslow" {
+				u, pw = "slow", "slowpw" // a credential check that takes a few hundred milliseconds
+			}
+			g, err := group.AddClient(gname, c, group.ClientCredentials{Username: &u, Password: pw})
 			if err == nil {
 				c.mu.Lock()
 				c.g = g
@@ -141,18 +164,36 @@ func TestVerif_C14_InterleavedMembership(t *testing.T) {
 			members = append(members, c)
 		}
 		// the parked operation
-		firstKind := rapid.SampledFrom([]string{"join", "join", "leave"}).Draw(t, "parkedOperation")
+		firstKind := rapid.SampledFrom([]string{"join", "join", "leave", "join-slow", "join-slow"}).Draw(t, "parkedOperation")
 		var firstSubject *viewClient
 		if firstKind == "join" {
 			firstSubject = mk("J")
+		} else if firstKind == "join-slow" {
+			// no callback is parked: the join is slow by itself, inside the password hash
+			firstSubject = mk("Jslow")
 		} else {
 			firstSubject = members[rapid.IntRange(0, len(members)-1).Draw(t, "leaver")]
 		}
 		// where it parks: which client's callback, which event, which occurrence
 		candidates := append([]*viewClient{firstSubject}, members...)
 		parkAt := candidates[rapid.IntRange(0, len(candidates)-1).Draw(t, "parkClient")]
-		parkWhat := rapid.SampledFrom([]string{"joined/join", "joined/leave", "user/add", "user/add", "user/delete"}).Draw(t, "parkEvent")
-		parkNth := rapid.IntRange(1, 3).Draw(t, "parkNth")
+		// (an event that lies on the operation's path: the joiner hears joined/join, then one add per member including
+		// itself; a member hears one add; the leaver hears joined/leave; a remaining member hears one delete)
+		parkWhat, parkNth := "user/add", 1
+		switch {
+		case firstKind == "leave" && parkAt == firstSubject:
+			parkWhat = "joined/leave"
+		case firstKind == "leave":
+			parkWhat = "user/delete"
+		case parkAt == firstSubject:
+			parkWhat = rapid.SampledFrom([]string{"joined/join", "user/add", "user/add"}).Draw(t, "parkEvent")
+			if parkWhat == "user/add" {
+				parkNth = rapid.IntRange(1, len(members)+1).Draw(t, "parkNth")
+			}
+		}
+		if rapid.IntRange(0, 9).Draw(t, "offPath") == 0 {
+			parkWhat = rapid.SampledFrom([]string{"joined/join", "joined/leave", "user/add", "user/delete"}).Draw(t, "anyEvent")
+		}
 		// what runs meanwhile
 		nMean := rapid.IntRange(1, 3).Draw(t, "meanwhileOps")
 		type mop struct {
@@ -184,7 +225,7 @@ func TestVerif_C14_InterleavedMembership(t *testing.T) {
 		var pmu sync.Mutex
 		seen, parked := 0, false
 		parkAt.hook = func(what string) {
-			if what != parkWhat {
+			if what != parkWhat || firstKind == "join-slow" {
 				return
 			}
 			pmu.Lock()
@@ -206,17 +247,31 @@ func TestVerif_C14_InterleavedMembership(t *testing.T) {
 		wg.Add(1)
 		go func() {
 			defer wg.Done()
-			if firstKind == "join" {
-				join(firstSubject)
-			} else {
+			if firstKind == "leave" {
 				leave(firstSubject)
+			} else {
+				join(firstSubject)
 			}
 		}()
 		reached := false
-		select {
-		case <-entered:
-			reached = true
-		case <-time.After(200 * time.Millisecond):
+		if firstKind == "join-slow" {
+			// "parked" = the goroutine dump shows the join inside the key derivation
+			buf := make([]byte, 1<<20)
+			for i := 0; i < 400 && !reached; i++ {
+				n := runtime.Stack(buf, true)
+				d := string(buf[:n])
+				if strings.Contains(d, "pbkdf2.Key(") && strings.Contains(d, "group.AddClient(") {
+					reached = true
+				} else {
+					time.Sleep(500 * time.Microsecond)
+				}
+			}
+		} else {
+			select {
+			case <-entered:
+				reached = true
+			case <-time.After(200 * time.Millisecond):
+			}
 		}
 		completedMeanwhile := 0
 		var cm sync.Mutex
@@ -299,5 +354,6 @@ func TestVerif_C14_InterleavedMembership(t *testing.T) {
 		c14sRec.ClassIf(reached && completedMeanwhile > 0, "operation_completed_while_parked")
 		c14sRec.ClassIf(reached && completedMeanwhile < len(mean), "operation_waited_for_parked_one")
 		c14sRec.Class("parked_" + firstKind)
+		c14sRec.ClassIf(firstKind == "join-slow" && reached, "slow_join_observed_inside_the_key_derivation")
 	})
 }
